@@ -181,6 +181,8 @@ PROPS = {
         "subs": [
             {"engine": "cors", "mode": "plain", "shards": {Q: 16, T: 16}, "min_nontrivial": {Q: 50000, T: 2000000},
              "timeout": {Q: 600, T: 3000}},
+            {"engine": "cors.conc", "mode": "race", "shards": {Q: 4, T: 16}, "min_nontrivial": {Q: 500, T: 10000},
+             "timeout": {Q: 600, T: 3000}},
         ],
     },
     "C20": {
